@@ -107,6 +107,7 @@ func gen(t *rapid.T) Case {
 		defs = append(defs, projkit.GenDefFor(t, projkit.Opts{Projs: projkit.AllProjs, WithAxis: true, OnlyDatum: rapid.Bool().Draw(t, "onlydatum")}, lon, lat))
 	}
 	gridTwins := rapid.IntRange(0, 11).Draw(t, "gridtwins") == 5
+	gridBoth := gridTwins && rapid.Bool().Draw(t, "gridboth")
 	for _, d := range defs {
 		s := d.String()
 		if rapid.IntRange(0, 9).Draw(t, "named") == 0 {
@@ -127,6 +128,11 @@ func gen(t *rapid.T) Case {
 			// two references on one grid-shift datum (the library parses +nadgrids but does not apply grids: a transformer
 			// between the two works, because the datums are the same, every transformer to or from another datum fails)
 			s = []string{"+proj=longlat +ellps=bessel +nadgrids=foo.gsb +no_defs", "+proj=longlat +ellps=bessel +nadgrids=foo.gsb +pm=paris +no_defs"}[len(c.Defs)]
+			if gridBoth {
+				// the datum given twice, by grids and by parameters (in either order): whatever the library makes of that, it
+				// makes the same of it on every call
+				s = []string{"+proj=longlat +ellps=bessel +nadgrids=foo.gsb +towgs84=598.1,73.7,418.2 +no_defs", "+proj=longlat +ellps=bessel +towgs84=598.1,73.7,418.2,0.202,0.045,-2.455,6.7 +nadgrids=foo.gsb +pm=paris +no_defs"}[len(c.Defs)]
+			}
 			unbuildable = true
 			c.Unbuildable = true
 		}
